@@ -17,6 +17,16 @@ THEOREMS = [
     "Cv.C05a.mitmFindPathFrom_core",
     "Cv.C05b.between_spec",
     "Cv.C05b.between_spec_noflag",
+    "Cv.C05e.encoded_mitmFindPathTo_spec",
+    "Cv.C05e.layer_le_of_closed",
+    "Cv.C05e.encoded_mitmFindPathFrom_spec",
+    "Cv.C05e.encoded_between_spec",
+    "Cv.C05e.plain_mitmFindPathTo_spec",
+    "Cv.C05e.plain_mitmFindPathFrom_spec",
+    "Cv.C05e.plain_between_spec",
+    "Cv.C05e.encoded_mitmFindPathTo_single_word",
+    "Cv.C05e.encoded_between_single_word",
+    "Cv.C05e.encoded1d_mitm_eq",
 ]
 
 
@@ -201,7 +211,7 @@ def main():
         body = json.load(open(os.path.join(VERIF, ck.replay) if not os.path.isabs(ck.replay) else ck.replay))
         ck.guard(run_case, ck, body["case"])
         ck.finish(rule="replay of one recorded case")
-    ck.lean_obligations(['CvProps.C05a', 'CvProps.C05b'], THEOREMS)
+    ck.lean_obligations(['CvProps.C05a', 'CvProps.C05b', "CvProps.C05e"], THEOREMS)
     for case in json.load(open(os.path.join(VERIF, "harness", "corpus", "C05.json"))):
         ck.guard(run_case, ck, case)
         ck.count("corpus")
